@@ -184,3 +184,13 @@ claim('C20',
       'stereocentres, stereo double bonds); coordinates and allenes not covered.',
       'symbolic execution of the real writer/reader/bridge with z3-decided spelling orders (minisym); RDKit as concrete oracle',
       'DESIGN.md §4 C20')
+claim('C11',
+      'Clauses with symbolic content only: records of <= 3 atoms with charge -4..4, isotope, radical flag, atom number (1, 999, '
+      '1000) and bond order (1, 2, 3, 4, 8) as solver variables go through all five real writers (V2000 / V3000 molecule and '
+      'reaction files, MRV) and their readers and come back field by field in order, with title and metadata; the fixed-column '
+      'writers refuse only what their columns cannot hold; reactions with symbolic role counts keep roles, order and mapping '
+      'numbers; stereo seeds with 2-D coordinates keep tetrahedral and cis/trans configuration through every format.',
+      'The variables are realised when the writer formats them: a solver-enumerated finite domain. Record splitting, damaged '
+      'records, random access, metadata escaping and foreign files are text plumbing with nothing symbolic left: not claimed '
+      '(see not_applicable note in DESIGN.md §5); the wedge <-> sign relation over all real coordinates is decided under C12.',
+      'symbolic execution of the real writers and readers with solver-enumerated field values (minisym)', 'DESIGN.md §4 C11')
